@@ -254,6 +254,45 @@ let () =
           let show l = String.concat " || " (Stdlib.List.map show_changes l) in
           if show got <> show want then Printf.printf "%s MODEL-REFERENCE-DIFFERS %s\n" id (show want);
           Printf.printf "%s %s\n" id (show got)
+        | "consumers" ->
+          (* <cmd I|D|A|M> <nflags> <hex>... (~ | E <n> <hex>...) <from schema> <to schema> *)
+          let cmd = next () in
+          let nf = next_int () in
+          let flags = times nf next_str in
+          let env = (match next () with
+            | "~" -> None
+            | "E" -> let n = next_int () in Some (times n next_str)
+            | s -> failwith ("env " ^ s)) in
+          let from = parse_schema () in
+          let to_ = parse_schema () in
+          let c = (match cmd with "I" -> CInspect | "D" -> CDiff | "A" -> CApply | "M" -> CMigrateDiff | s -> failwith ("cmd " ^ s)) in
+          let inv = { i_cmd = c; i_flags = flags; i_env = env } in
+          let show_tab t =
+            Printf.sprintf "T(%s){c=%s;i=%s}" (hexb t.t_name)
+              (String.concat "," (Stdlib.List.map (fun c -> hexb c.c_name) t.t_cols))
+              (String.concat "," (Stdlib.List.sort compare (Stdlib.List.map (fun i -> hexb i.i_name) t.t_idx))) in
+          let show_state r =
+            "[" ^ String.concat " " (Stdlib.List.sort compare (Stdlib.List.concat_map (fun s -> Stdlib.List.map show_tab s.s_tables) r)) ^ "]" in
+          let atoms = function
+            | None -> "differr"
+            | Some cs ->
+              let a = Stdlib.List.concat_map (function
+                | AddTable n -> ["+T(" ^ hexb n ^ ")"]
+                | DropTable n -> ["-T(" ^ hexb n ^ ")"]
+                | ModifyTable (n, l) -> Stdlib.List.map (fun ch ->
+                    let q k x = k ^ "(" ^ hexb n ^ "." ^ hexb x ^ ")" in
+                    match ch with
+                    | AddColumn x -> q "+C" x | DropColumn x -> q "-C" x | ModifyColumn (x, _) -> q "~C" x
+                    | AddIndex x -> q "+I" x | DropIndex x -> q "-I" x | ModifyIndex (x, _) -> q "~I" x
+                    | _ -> "?(" ^ hexb n ^ ")") l) cs in
+              if a = [] then "-" else String.concat "," (Stdlib.List.sort compare a) in
+          (match command_diff inv [from] [to_] with
+           | EErr _ -> Printf.printf "%s err\n" id
+           | EOk ((f, t), d) ->
+             (match cmd with
+              | "I" -> Printf.printf "%s ok from=%s\n" id (show_state f)
+              | "D" -> Printf.printf "%s ok from=%s to=%s ch=%s\n" id (show_state f) (show_state t) (atoms d)
+              | _ -> Printf.printf "%s ok ch=%s\n" id (atoms d)))
         | m -> failwith ("mode " ^ m)
       end
     done
